@@ -17,6 +17,8 @@ import (
 	"path/filepath"
 	"regexp"
 	"strings"
+	"sync"
+	"sync/atomic"
 	"testing"
 	"time"
 
@@ -365,5 +367,61 @@ func TestC19_Binary(t *testing.T) {
 	}
 	if u := db.Unrecognised(); len(u) > 0 {
 		t.Logf("note: statements the fake did not recognise: %v", u)
+	}
+}
+
+// TestC19_ConcurrentLogins: right and wrong passwords are submitted at the same time
+// (operators logging in while someone guesses); a wrong password never yields a session,
+// whatever else is in flight.
+func TestC19_ConcurrentLogins(t *testing.T) {
+	ev := evid.For("C19", "ConcurrentLogins")
+	for _, cfgPw := range []string{"s3cret-pw", "another-secret-of-other-length"} {
+		conf := &config.Root{}
+		conf.Dashboard.RootPassword = wos.EnvString(cfgPw)
+		h := web.New(nil, conf, nil)
+		const workers, rounds = 8, 1500
+		var wg sync.WaitGroup
+		var bad atomic.Value
+		var wrongTried, rightOK atomic.Int64
+		for g := 0; g < workers; g++ {
+			wg.Add(1)
+			go func(g int) {
+				defer wg.Done()
+				for i := 0; i < rounds; i++ {
+					pw, right := cfgPw, true
+					if g%2 == 1 {
+						// same length as the real one, and shorter / longer ones
+						pw, right = strings.Repeat("x", len(cfgPw)-i%3), false
+					}
+					_, cookies := c19Login(h, "8.8.8.8:1", pw, "POST")
+					issued := false
+					for _, c := range cookies {
+						if c.Name == "session" && c.Value != "" {
+							issued = true
+						}
+					}
+					switch {
+					case !right && issued:
+						bad.Store(fmt.Sprintf("wrong password %q got a session while %d other logins were in flight", pw, workers-1))
+						return
+					case right && !issued:
+						bad.Store(fmt.Sprintf("the right password was refused while other logins were in flight"))
+						return
+					case right:
+						rightOK.Add(1)
+					default:
+						wrongTried.Add(1)
+					}
+				}
+			}(g)
+		}
+		wg.Wait()
+		if v := bad.Load(); v != nil {
+			t.Fatalf("VERIF-VIOLATION property=C19 %v", v)
+		}
+		ev.Case(true, cfgPw, fmt.Sprintf("workers=%d", workers))
+		ev.LabelN("wrong-guesses-refused", wrongTried.Load())
+		ev.LabelN("right-logins", rightOK.Load())
+		ev.Sample(2, map[string]any{"password_len": len(cfgPw), "workers": workers, "logins_per_worker": rounds})
 	}
 }
